@@ -26,6 +26,26 @@ fn work_list(ctx: &Ctx, corp: &corpus::Corpus) -> Vec<(String, u8)> {
     for (k, &i) in others.iter().enumerate().take(take) {
         v.push((corp.fens[i].clone(), if k % 2 == 0 { 3 } else { 4 }));
     }
+    // draws inside the tree (stalemate, fifty-move rule, repetition of the game's positions), both sides to move
+    for (k, f) in [
+        "8/8/8/8/8/4k3/4p3/4K3 w - - 0 1",
+        "4k3/4P3/4K3/8/8/8/8/8 b - - 0 1",
+        "7k/8/5QK1/8/8/8/8/8 w - - 0 1",
+        "8/8/8/8/8/5qk1/8/7K b - - 0 1",
+        "7k/8/8/8/8/8/R7/K7 b - - 96 80",
+        "7k/8/8/8/8/8/R7/K7 w - - 97 80",
+        "k7/r7/8/8/8/8/8/7K w - - 96 80",
+        "rnbqkbnr/pppppppp/8/8/8/8/PPPPPPPP/RNBQKBNR w KQkq - 0 1|g1f3 g8f6 f3g1 f6g8",
+        "rnbqkbnr/pppppppp/8/8/8/8/PPPPPPPP/RNBQKBNR w KQkq - 0 1|g1f3 g8f6 f3g1 f6g8 g1f3",
+        "r1bqkbnr/pppp1ppp/2n5/4p3/4P3/5N2/PPPP1PPP/RNBQKB1R w KQkq - 2 3|f3g1 c6b8 g1f3 b8c6",
+        "8/8/4k3/8/8/3QK3/8/8 w - - 0 1|d3d4 e6e7 d4d3 e7e6",
+        "8/8/4k3/8/8/3QK3/8/8 w - - 0 1|d3d4 e6e7 d4d3",
+    ]
+    .iter()
+    .enumerate()
+    {
+        v.push((f.to_string(), if k % 2 == 0 { 5 } else { 4 }));
+    }
     // positions WITH game history ("FEN|moves"): 10-16 plies of repetition- and capture-weighted
     // play, so the remembered earlier positions matter inside the search
     let n_hist = ctx.tier.pick(30, 120);
@@ -72,6 +92,14 @@ fn one(key: &str, d: u8) -> Option<(String, i16, u64)> {
     Some((r.bestmove.or(r.root_move)?, r.root_score?, r.nodes))
 }
 
+fn gcd(a: usize, b: usize) -> usize {
+    if b == 0 {
+        a
+    } else {
+        gcd(b, a % b)
+    }
+}
+
 fn worker(ctx: &Ctx) -> Report {
     let mut rep = Report::new();
     let corp = corpus::load(&ctx.verif);
@@ -79,12 +107,29 @@ fn worker(ctx: &Ctx) -> Report {
     let mut results: Vec<Value> = vec![];
     let reps = 3;
     let mut table: Vec<Option<(String, i16, u64)>> = vec![None; list.len()];
+    // A process-global latch set by the FIRST search of a process must not show either: every
+    // worker process begins with a different primer search (other side to move, a drawn ending,
+    // a game with repetitions) whose result is not compared
+    {
+        let primers = [
+            "8/8/8/8/8/4k3/4p3/4K3 w - - 0 1",
+            "4k3/4P3/4K3/8/8/8/8/8 b - - 0 1",
+            "r1bqkbnr/pppp1ppp/2n5/4p3/4P3/5N2/PPPP1PPP/RNBQKB1R w KQkq - 2 3|f3g1 c6b8 g1f3 b8c6",
+            "7k/8/8/8/8/8/R7/K7 b - - 96 80",
+        ];
+        let _ = one(primers[ctx.shard_index() % 4], 4);
+        rep.class("primer-search-before-everything(per-process, not compared)");
+    }
+    let n = list.len();
+    // a stride coprime to the list length
+    let stride = (3..).find(|k| gcd(*k, n) == 1).unwrap_or(1);
     for round in 0..reps {
-        // different visiting order per round => different searches precede each one
+        // different visiting order per round and per process => different searches precede each one
+        let off = (ctx.shard_index() * n) / 4 + ctx.shard_index();
         let order: Vec<usize> = match round {
-            0 => (0..list.len()).collect(),
-            1 => (0..list.len()).rev().collect(),
-            _ => (0..list.len()).map(|i| (i * 7 + ctx.shard_index()) % list.len()).collect::<std::collections::BTreeSet<_>>().into_iter().collect(),
+            0 => (0..n).map(|i| (i + off) % n).collect(),
+            1 => (0..n).rev().map(|i| (i + off) % n).collect(),
+            _ => (0..n).map(|i| (i * stride + off) % n).collect(),
         };
         for i in order {
             let (fen, d) = &list[i];
@@ -143,6 +188,41 @@ fn bench_nodes(out: &str) -> Option<u64> {
     out.lines().find_map(|l| l.trim().strip_suffix(" nodes").and_then(|n| n.trim().parse().ok()))
 }
 
+/// Cold-start storm: many engine processes started at once on an oversubscribed machine, each
+/// given its whole input at once (position + go depth 4 on the first line the process ever
+/// reads), so that whatever the process still does in the background right after start-up
+/// overlaps with its first search.  Returns (bestmove line, node count) per process.
+fn cold_start_storm(ctx: &Ctx, total: usize, par: usize) -> Vec<(String, String)> {
+    use super::uciproc::{Engine, Stream};
+    let results = std::sync::Mutex::new(Vec::new());
+    let next = std::sync::atomic::AtomicUsize::new(0);
+    std::thread::scope(|s| {
+        for _ in 0..par {
+            s.spawn(|| loop {
+                let k = next.fetch_add(1, std::sync::atomic::Ordering::SeqCst);
+                if k >= total {
+                    break;
+                }
+                let Ok(mut e) = Engine::spawn(&ctx.engine, &[]) else { continue };
+                if k % 2 == 0 {
+                    e.send_raw(b"position startpos moves e2e4 e7e5\ngo depth 4\n");
+                } else {
+                    e.send_raw(b"uci\nisready\nucinewgame\nposition startpos moves e2e4 e7e5\ngo depth 4\n");
+                }
+                let best = e.wait_for(Duration::from_secs(120), |ev| (ev.stream == Stream::Out && ev.line.starts_with("bestmove")) || ev.eof);
+                let nodes = e.stdout_lines().iter().rev().find(|l| l.line.starts_with("info")).and_then(|l| {
+                    let toks: Vec<&str> = l.line.split_whitespace().collect();
+                    toks.iter().position(|t| *t == "nodes").and_then(|i| toks.get(i + 1)).map(|s| s.to_string())
+                });
+                e.send("quit");
+                let _ = e.wait_exit(Duration::from_secs(2));
+                results.lock().unwrap().push((best.map(|b| b.line).unwrap_or_default(), nodes.unwrap_or_default()));
+            });
+        }
+    });
+    results.into_inner().unwrap()
+}
+
 pub fn run(ctx: &Ctx) -> Report {
     if ctx.shard.is_some() {
         return match std::env::var("RCE_C16_ROLE").ok().as_deref() {
@@ -179,11 +259,30 @@ pub fn run(ctx: &Ctx) -> Report {
     let burn_secs = ctx.tier.pick(20u64, 60);
     let burners = std::thread::scope(|s| {
         let h = s.spawn(|| run_sharded_raw(ctx, 10, 10, &[("RCE_C16_ROLE", "burn".to_string()), ("RCE_C16_BURN", burn_secs.to_string())]));
+        let storm = s.spawn(|| cold_start_storm(ctx, ctx.tier.pick(1200, 12_000), 48));
         let workers = run_sharded_raw(ctx, 4, 4, &[("RCE_C16_ROLE", "work".to_string())]);
         let _ = h.join();
-        workers
+        (workers, storm.join().unwrap_or_default())
     });
-    let workers = burners;
+    let (workers, storm) = burners;
+    rep.eval(storm.len() as u64);
+    if storm.len() >= 2 {
+        rep.nontrivial(o::hash_str("cold-start-storm"));
+        rep.class_n("cold-start-storm:fresh-processes(48 at a time, under the busy loops)", storm.len() as u64);
+        let mut kinds: std::collections::BTreeMap<(String, String), usize> = Default::default();
+        for r in &storm {
+            *kinds.entry(r.clone()).or_insert(0) += 1;
+        }
+        if kinds.len() > 1 || storm[0].1.is_empty() {
+            rep.violation(Violation::new(
+                "across-processes",
+                "across-processes/cold-start-differs",
+                format!("'position startpos moves e2e4 e7e5' + 'go depth 4' as the first input of {} freshly started engine processes gave different answers: {:?}", storm.len(), kinds),
+                json!({"cold_start": true}),
+            ));
+        }
+        rep.samples.push(json!({"cold_start_storm": storm.len(), "answer": storm[0]}));
+    }
     // compare the workers' result tables
     let mut base: Option<Value> = None;
     for (i, w) in &workers {
@@ -401,6 +500,14 @@ pub fn run(ctx: &Ctx) -> Report {
 
 pub fn replay(ctx: &Ctx, case: &Value) -> Report {
     let mut rep = Report::new();
+    if case["cold_start"].as_bool() == Some(true) {
+        let storm = cold_start_storm(ctx, 2000, 64);
+        rep.eval(storm.len() as u64);
+        if storm.iter().any(|x| x != &storm[0]) {
+            rep.violation(Violation::new("across-processes", "across-processes/cold-start-differs", "freshly started engine processes answered the same first search differently", case.clone()));
+        }
+        return rep;
+    }
     if case["bench"].as_bool() == Some(true) {
         let a = run_bench(ctx).and_then(|c| c.wait_with_output()).ok().and_then(|o| bench_nodes(&String::from_utf8_lossy(&o.stdout)));
         let b = run_bench(ctx).and_then(|c| c.wait_with_output()).ok().and_then(|o| bench_nodes(&String::from_utf8_lossy(&o.stdout)));
@@ -431,5 +538,5 @@ pub fn replay(ctx: &Ctx, case: &Value) -> Report {
 }
 
 pub const LEVEL: &str = "exploration";
-pub const RULE: &str = "(position, depth) = the 62 bench FENs at depth 4-5 (quick) / 5-6 (thorough), corpus positions at depth 3-4 and 30/120 positions WITH game history (10-16 plies of weighted play, so remembered repetitions matter), each searched from an emptied cache 3 times per process in different orders with searches of other positions in between, in 4 separate processes running at the same time as 10 busy-loop processes and as the real 'bench' subcommand (x2 quick / x4 thorough, one run frozen for 6 s by SIGSTOP/SIGCONT); the same searches as the only search of a fresh engine process (x3: plain; after ucinewgame with the command loop held 60 ms after spawning the search; after ucinewgame with 200 ms + the search thread held 30 ms) must equal the long-lived processes' results; one deep search (depth 8 quick / 9 thorough, > 250 000 cache entries) in three concurrent engine processes, one frozen for 1.2 s; a depth-6 search with and without the advertised options set; oracle = equality of (bestmove, root score, node count) across all repetitions and processes, and of the bench node total. Non-trivial = (position, depth) with >= 1000 nodes, plus the bench comparison; distinct by (position, depth).";
+pub const RULE: &str = "(position, depth) = the 62 bench FENs at depth 4-5 (quick) / 5-6 (thorough), corpus positions at depth 3-4 and 30/120 positions WITH game history (10-16 plies of weighted play, so remembered repetitions matter), each searched from an emptied cache 3 times per process in different orders with searches of other positions in between, in 4 separate processes running at the same time as 10 busy-loop processes and as the real 'bench' subcommand (x2 quick / x4 thorough, one run frozen for 6 s by SIGSTOP/SIGCONT); the same searches as the only search of a fresh engine process (x3: plain; after ucinewgame with the command loop held 60 ms after spawning the search; after ucinewgame with 200 ms + the search thread held 30 ms) must equal the long-lived processes' results; one deep search (depth 8 quick / 9 thorough, > 250 000 cache entries) in three concurrent engine processes, one frozen for 1.2 s; a depth-6 search with and without the advertised options set; each worker process starts with a different primer search (other side to move, drawn endings, a game with repetitions) and visits the list in its own rotation, reverse rotation and stride order; draw-rich positions (stalemate traps, fifty-move clocks 96-97, to-and-fro histories) are part of the list; a cold-start storm (1200 quick / 12000 thorough freshly started engine processes, 48 at a time while the busy loops run, the whole input written at once so the first search overlaps with whatever the process does right after start-up) must give one single (bestmove, nodes) answer; oracle = equality of (bestmove, root score, node count) across all repetitions and processes, and of the bench node total. Non-trivial = (position, depth) with >= 1000 nodes, plus the bench comparison; distinct by (position, depth).";
 pub const ASSUMPTIONS: &[&str] = &["equality is the whole oracle; nothing is assumed about which move is best", "machine load is produced by the harness itself (10 busy loops + concurrent bench runs on 16 cores)"];
